@@ -120,6 +120,12 @@ func c14(c *Ctx) {
 	c14Payloader(c)
 	np := presenceRule(c, "codecs.(*H265SingleNALUnitPacket).Unmarshal", []presRow{{"mightNeedDONL", []string{"donl"}}})
 	np += presenceRule(c, "codecs.(*H265FragmentationUnitPacket).Unmarshal", []presRow{{"mightNeedDONL", []string{"donl"}}})
+	minLenRule(c, []minLenRow{
+		{fn: "codecs.(*H265SingleNALUnitPacket).Unmarshal", want: []int{3, 5}, why: "2 header octets + >=1 payload octet; +2 with DONL"},
+		{fn: "codecs.(*H265FragmentationUnitPacket).Unmarshal", want: []int{4, 6}, why: "2 header + FU header + >=1 payload octet; +2 with DONL on the S fragment"},
+		{fn: "codecs.(*H265PACIPacket).Unmarshal", want: []int{5, 6}, why: "2 header + 2 PACI octets + PHES + >=1 payload octet"},
+		{fn: "codecs.(*H265AggregationPacket).Unmarshal", want: []int{4}, minOnly: true, why: "2 header octets + first unit size field (lower bound of the analysis; the true minimum is 6)"},
+		{fn: "codecs.(*H265Packet).Unmarshal", want: []int{3}, minOnly: true, why: "shortest form is the single NAL unit packet"}})
 	r.Floor("H265 DONL presence rows", np, 2)
 	var entries []*ssa.Function
 	for _, nme := range []string{"codecs.(*H265Payloader).Payload", "codecs.(*H265Packet).Unmarshal", "codecs.(*H265Packet).IsPartitionHead"} {
